@@ -258,6 +258,12 @@ func c07Capacity(w *fw.W, idx int, r *fw.Rand) {
 	case 7: // container length via concatenation / repetition
 		n = fw.PickT(r, []int{10, 255, 256, 257, 300})
 		src, want, fam = fmt.Sprintf("xs = [1]*%d; (xs + xs).len()", n), fmt.Sprintf("i%d", 2*n), "concat-length"
+	case 10: // slice assignment that would grow an array beyond the 512 elements every other constructor allows
+		n = r.Intn(8)
+		base := fw.PickT(r, []int{300, 512, 511, 400})
+		hi := r.Pick([]string{"9999", "100000", "9223372036854775807", "xs.len()", "600"})
+		lo := r.Pick([]string{"xs.len()", fmt.Sprint(base), fmt.Sprint(base - 1)}) // appending: the result has ≥ 2·base−1 > 512 elements
+		src, want, fam = fmt.Sprintf("xs = [0]*%d; xs[%s:%s] = xs; xs[%s:%s] = xs; xs.len()", base, lo, hi, lo, hi), "REJECT", "slice-assign-growth"
 	case 9: // repetition counts whose product with the length wraps around the word size
 		n = r.Intn(8)
 		k := fw.PickT(r, []int{3, 4, 8, 16})
